@@ -89,7 +89,44 @@ func (i *insertExecutor) beforeImage(ctx context.Context) (*types.RecordImage, e
 	if err != nil {
 		return nil, err
 	}
+	if err := i.checkGeneratedPkValues(*metaData); err != nil {
+		return nil, err
+	}
 	return types.NewEmptyRecordImage(metaData, types.SQLTypeInsert), nil
+}
+
+// isGeneratedPkValue tells whether a primary key value of the statement is left to the database
+func isGeneratedPkValue(value interface{}) bool {
+	_, isFunc := value.(*ast.FuncCallExpr)
+	return value == nil || isFunc
+}
+
+// checkGeneratedPkValues refuses, before the statement runs, an insert whose rows partly give the primary key and
+// partly leave it to the database: which generated value goes to which row depends on the server's
+// innodb_autoinc_lock_mode then, and refusing the statement after it ran would leave its effect in the caller's transaction
+func (i *insertExecutor) checkGeneratedPkValues(meta types.TableMeta) error {
+	if !i.isAstStmtValid() || i.execContext == nil {
+		return nil
+	}
+	if containsColumns(i.parserCtx) && !i.containsPK(meta, i.parserCtx) {
+		return nil
+	}
+	pkValuesMap, err := i.parsePkValuesFromStatement(i.parserCtx.InsertStmt, meta, i.execContext.NamedValues)
+	if err != nil {
+		return nil
+	}
+	for k, v := range pkValuesMap {
+		generated := 0
+		for _, x := range v {
+			if isGeneratedPkValue(x) {
+				generated++
+			}
+		}
+		if generated != 0 && generated != len(v) {
+			return fmt.Errorf("insert with given and generated values for the primary key %s in one statement is not supported", k)
+		}
+	}
+	return nil
 }
 
 // afterImage build after image
@@ -430,25 +467,17 @@ func (i *insertExecutor) getPkValuesByColumn(ctx context.Context, execCtx *types
 		return nil, err
 	}
 
-	// generate pkValue by auto increment
-	for _, v := range pkValuesMap {
-		tmpV := v
-		if len(tmpV) == 1 {
-			// pk auto generated while single insert primary key is expression
-			if _, ok := tmpV[0].(*ast.FuncCallExpr); ok {
-				curPkValueMap, err := i.getPkValuesByAuto(ctx, execCtx)
-				if err != nil {
-					return nil, err
-				}
-				pkValuesMapMerge(&pkValuesMap, curPkValueMap)
-			}
-		} else if len(tmpV) > 0 && tmpV[0] == nil {
-			// pk auto generated while column exists and value is null
-			curPkValueMap, err := i.getPkValuesByAuto(ctx, execCtx)
-			if err != nil {
-				return nil, err
-			}
-			pkValuesMapMerge(&pkValuesMap, curPkValueMap)
+	// a key that is given as NULL or as an expression is generated by the database
+	for k, v := range pkValuesMap {
+		if len(v) == 0 || !isGeneratedPkValue(v[0]) {
+			continue
+		}
+		curPkValueMap, err := i.getPkValuesByAuto(ctx, execCtx)
+		if err != nil {
+			return nil, err
+		}
+		if vals, ok := curPkValueMap[k]; ok {
+			pkValuesMap[k] = vals
 		}
 	}
 	return pkValuesMap, nil
@@ -577,7 +606,7 @@ func pkValuesMapMerge(dest *map[string][]interface{}, src map[string][]interface
 	for k, v := range src {
 		tmpK := k
 		tmpV := v
-		(*dest)[tmpK] = append((*dest)[tmpK], tmpV)
+		(*dest)[tmpK] = append((*dest)[tmpK], tmpV...)
 	}
 }
 
